@@ -1102,7 +1102,7 @@ func VerifC04History() {
 	p := verifChoice("prefix", len(vcPrefixes))
 	k, kinds := 2, int(stInstall)+1
 	if verifTier() > 0 {
-		k = 4
+		k = 3
 	}
 	vcRun(vcPrefixes[p], k, kinds)
 }
@@ -1146,7 +1146,7 @@ func VerifC04Faults() {
 	p := verifChoice("prefix", len(vcPrefixes))
 	k := 1
 	if verifTier() > 0 {
-		k = 3
+		k = 2
 	}
 	vcRun(vcPrefixes[p], k, stKinds)
 }
